@@ -1,9 +1,11 @@
-(* C10 — Casketfile lexer and (import-free) parser: executable model.
+(* C10 — Casketfile lexer and parser: executable model.
    Lexer mirrors casketfile/lexer.go (lexer.next, load: BOM), rune level.
    Parser mirrors casketfile/parse.go (parseAll/parseOne/begin/addresses/blockContents/directives/
-   directive/replaceEnvVars) over the Dispenser cursor; `import` and snippet definitions are
-   outside this model (the harness feeds the model the INLINE rendering of a configuration and the
-   implementation the same configuration split into imports and snippets). *)
+   directive/doImport/doSingleImport/snippetTokens/isSnippet/replaceEnvVars) over the Dispenser
+   cursor, with explicit fuel, the import counter (maxImports), checked slice/index operations
+   ([PPanic]) and a world oracle for glob expansion and file contents.  Dispenser operations used by
+   directive setup code (NextArg, nextOnSameLine, NextBlockNesting, RemainingArgs) are modelled for
+   the line-structure observable. *)
 Require Import V.Lib V.GoPath.
 Open Scope N_scope.
 
@@ -113,7 +115,8 @@ Definition next_on_new_line (t1 t2 : token) : bool :=
   negb (t_file t1 =? t_file t2) || (t_line t1 + count_nl (t_text t1) <? t_line t2)%Z.
 
 Record pst := { p_tokens : list token; p_cursor : Z; p_keys : list bytes;
-                p_btoks : list (bytes * list token); p_eof : bool }.
+                p_btoks : list (bytes * list token); p_eof : bool;
+                p_snips : list (bytes * list token); p_imports : N }.
 
 Definition plen (st : pst) : Z := Z.of_nat (length (p_tokens st)).
 Definition tok_at (st : pst) (c : Z) : option token :=
@@ -121,7 +124,8 @@ Definition tok_at (st : pst) (c : Z) : option token :=
 Definition pval (st : pst) : bytes :=
   match tok_at st (p_cursor st) with Some t => t_text t | None => [] end.
 Definition set_cursor (st : pst) (c : Z) : pst :=
-  {| p_tokens := p_tokens st; p_cursor := c; p_keys := p_keys st; p_btoks := p_btoks st; p_eof := p_eof st |}.
+  {| p_tokens := p_tokens st; p_cursor := c; p_keys := p_keys st; p_btoks := p_btoks st;
+     p_eof := p_eof st; p_snips := p_snips st; p_imports := p_imports st |}.
 Definition p_next (st : pst) : bool * pst :=
   if (p_cursor st <? plen st - 1)%Z then (true, set_cursor st (p_cursor st + 1)) else (false, st).
 Definition is_new_line (st : pst) : bool :=
@@ -131,9 +135,22 @@ Definition is_new_line (st : pst) : bool :=
        | Some a, Some b => next_on_new_line a b
        | _, _ => false
        end.
+(* Dispenser.NextArg *)
+Definition next_arg (st : pst) : bool * pst :=
+  let c := p_cursor st in
+  if (c <? 0)%Z then (true, set_cursor st (c + 1))
+  else if (c >=? plen st)%Z then (false, st)
+  else match tok_at st c, tok_at st (c + 1) with
+       | Some a, Some b =>
+           if (t_file a =? t_file b) && (t_line a + count_nl (t_text a) =? t_line b)%Z
+           then (true, set_cursor st (c + 1)) else (false, st)
+       | _, _ => (false, st)
+       end.
 
-Inductive pres (A : Type) := POk (v : A) | PErr | PFuel | PUnsupported.
-Arguments POk {A} v. Arguments PErr {A}. Arguments PFuel {A}. Arguments PUnsupported {A}.
+(* error classes: 0 syntax, 1 too many imports (cycle), 2 import (file/glob/pattern), 3 argument *)
+Inductive perr := ESyntax | ECycle | EImport | EArg.
+Inductive pres (A : Type) := POk (v : A) | PErr (e : perr) | PFuel | PPanic | PUnknown.
+Arguments POk {A} v. Arguments PErr {A} e. Arguments PFuel {A}. Arguments PPanic {A}. Arguments PUnknown {A}.
 
 Definition IMPORT := bs "import"%string.
 Definition LBRACE : bytes := [123].
@@ -142,35 +159,10 @@ Definition COMMA : N := 44.
 
 Definition add_key (st : pst) (k : bytes) : pst :=
   {| p_tokens := p_tokens st; p_cursor := p_cursor st; p_keys := p_keys st ++ [k];
-     p_btoks := p_btoks st; p_eof := p_eof st |}.
-
-Section Parser.
-Variable env : list (bytes * bytes).
-
-Fixpoint addresses (fuel : nat) (st : pst) (expecting : bool) : pres pst :=
-  match fuel with
-  | O => PFuel
-  | S f =>
-    match replace_env env (pval st) with
-    | None => PFuel
-    | Some tkn =>
-      if beq tkn IMPORT && is_new_line st then PUnsupported
-      else if beq tkn LBRACE then (if expecting then PErr else POk st)
-      else
-        let '(st1, exp1) :=
-          match rev tkn with
-          | [] => (st, expecting)
-          | last :: pre => if last =? COMMA then (add_key st (rev pre), true) else (add_key st tkn, false)
-          end in
-        let '(has, st2) := p_next st1 in
-        if exp1 && negb has then PErr
-        else if negb has then
-          POk {| p_tokens := p_tokens st2; p_cursor := p_cursor st2; p_keys := p_keys st2;
-                 p_btoks := p_btoks st2; p_eof := true |}
-        else if negb exp1 && is_new_line st2 then POk st2
-        else addresses f st2 exp1
-    end
-  end.
+     p_btoks := p_btoks st; p_eof := p_eof st; p_snips := p_snips st; p_imports := p_imports st |}.
+Definition set_eof (st : pst) : pst :=
+  {| p_tokens := p_tokens st; p_cursor := p_cursor st; p_keys := p_keys st;
+     p_btoks := p_btoks st; p_eof := true; p_snips := p_snips st; p_imports := p_imports st |}.
 
 Fixpoint add_btok (m : list (bytes * list token)) (dir : bytes) (t : token) : list (bytes * list token) :=
   match m with
@@ -178,20 +170,146 @@ Fixpoint add_btok (m : list (bytes * list token)) (dir : bytes) (t : token) : li
   | (d, ts) :: r => if beq d dir then (d, ts ++ [t]) :: r else (d, ts) :: add_btok r dir t
   end.
 
+Definition retext (t : token) (txt : bytes) : token :=
+  {| t_file := t_file t; t_line := t_line t; t_text := txt |}.
+
+(* p.tokens[p.cursor].Text = txt  (checked index) *)
 Definition set_tok_text (st : pst) (c : Z) (txt : bytes) : pst :=
   let i := Z.to_nat c in
   {| p_tokens := firstn i (p_tokens st) ++
        match skipn i (p_tokens st) with
-       | t :: r => {| t_file := t_file t; t_line := t_line t; t_text := txt |} :: r
+       | t :: r => retext t txt :: r
        | [] => []
        end;
-     p_cursor := p_cursor st; p_keys := p_keys st; p_btoks := p_btoks st; p_eof := p_eof st |}.
+     p_cursor := p_cursor st; p_keys := p_keys st; p_btoks := p_btoks st; p_eof := p_eof st;
+     p_snips := p_snips st; p_imports := p_imports st |}.
 
-Definition push_cur (st : pst) (dir : bytes) : pst :=
-  match tok_at st (p_cursor st) with
-  | Some t => {| p_tokens := p_tokens st; p_cursor := p_cursor st; p_keys := p_keys st;
-                 p_btoks := add_btok (p_btoks st) dir t; p_eof := p_eof st |}
-  | None => st
+Definition push_tok (st : pst) (dir : bytes) (t : token) : pst :=
+  {| p_tokens := p_tokens st; p_cursor := p_cursor st; p_keys := p_keys st;
+     p_btoks := add_btok (p_btoks st) dir t; p_eof := p_eof st;
+     p_snips := p_snips st; p_imports := p_imports st |}.
+
+Definition zslice_to {A} (l : list A) (hi : Z) : res (list A) :=
+  if (hi <? 0)%Z then Panic else slice l 0 (Z.to_nat hi).
+Definition zslice_from {A} (l : list A) (lo : Z) : res (list A) :=
+  if (lo <? 0)%Z then Panic else slice_from l (Z.to_nat lo).
+
+Fixpoint count_occ_N (c : N) (s : bytes) : nat :=
+  match s with [] => O | x :: r => ((if (x =? c)%N then 1 else 0) + count_occ_N c r)%nat end.
+Definition mem_N (c : N) (s : bytes) : bool := existsb (fun x => x =? c) s.
+(* "Glob pattern may only contain one wildcard" *)
+Definition glob_ok (pat : bytes) : bool :=
+  negb (Nat.ltb 1 (count_occ_N 42 pat) || Nat.ltb 1 (count_occ_N 63 pat) || (mem_N 91 pat && mem_N 93 pat)).
+Definition has_glob_char (pat : bytes) : bool :=
+  existsb (fun c => (c =? 42) || (c =? 63) || (c =? 91) || (c =? 93)) pat.
+
+Fixpoint lookup_f {B} (l : list (N * B)) (k : N) : option B :=
+  match l with [] => None | (k', v) :: r => if k' =? k then Some v else lookup_f r k end.
+Fixpoint lookup_g {B} (l : list ((N * bytes) * B)) (f : N) (p : bytes) : option B :=
+  match l with
+  | [] => None
+  | ((f', p'), v) :: r => if (f' =? f) && beq p' p then Some v else lookup_g r f p
+  end.
+Fixpoint lookup_s (l : list (bytes * list token)) (k : bytes) : option (list token) :=
+  match l with [] => None | (k', v) :: r => if beq k' k then Some v else lookup_s r k end.
+
+Definition is_snippet (keys : list bytes) : bool :=
+  match keys with
+  | [k] => has_prefix k [40] && has_suffix k [41]
+  | _ => false
+  end.
+(* strings.TrimSuffix(keys[0][1:], ")") *)
+Definition snippet_name (k : bytes) : bytes :=
+  match k with [] => [] | _ :: r => removelast r end.
+
+Section Parser.
+Variable env : list (bytes * bytes).
+Variable maxi : N.                                    (* maxImports *)
+Variable globs : list ((N * bytes) * list N).         (* (file of the import token, pattern) -> matched files *)
+Variable files : list (N * option (list token)).      (* file -> its tokens (tagged); None: unreadable / directory *)
+
+Definition renv (s : bytes) : bytes :=
+  match replace_env env s with Some x => x | None => s end.
+
+Fixpoint import_files (ids : list N) : pres (list token) :=
+  match ids with
+  | [] => POk []
+  | i :: r =>
+    match lookup_f files i with
+    | None => PUnknown
+    | Some None => PErr EImport
+    | Some (Some ts) =>
+        match import_files r with
+        | POk rest => POk (ts ++ rest)
+        | e => e
+        end
+    end
+  end.
+
+Definition imported_tokens (st : pst) (pat : bytes) : pres (list token) :=
+  match lookup_s (p_snips st) pat with
+  | Some body => POk body
+  | None =>
+    if negb (glob_ok pat) then PErr EImport
+    else
+      let f := match tok_at st (p_cursor st) with Some t => t_file t | None => 0 end in
+      match lookup_g globs f pat with
+      | None => PUnknown
+      | Some [] => if has_glob_char pat then POk [] else PErr EImport
+      | Some ids => import_files ids
+      end
+  end.
+
+(* doImport; cursor on the "import" token *)
+Definition do_import (st : pst) : pres pst :=
+  let '(has, st1) := next_arg st in
+  if negb has then PErr EArg
+  else
+    let pat := renv (pval st1) in
+    match pat with
+    | [] => PErr EImport
+    | _ =>
+      let n := (p_imports st1 + 1)%N in
+      if (maxi <? n)%N then PErr ECycle
+      else
+        let '(has2, _) := next_arg st1 in
+        if has2 then PErr EImport
+        else
+          let c := p_cursor st1 in
+          match zslice_to (p_tokens st1) (c - 1), zslice_from (p_tokens st1) (c + 1) with
+          | Ok before, Ok after =>
+            match imported_tokens st1 pat with
+            | POk imp =>
+                POk {| p_tokens := before ++ imp ++ after; p_cursor := (c - 1)%Z; p_keys := p_keys st1;
+                       p_btoks := p_btoks st1; p_eof := p_eof st1; p_snips := p_snips st1; p_imports := n |}
+            | PErr e => PErr e | PFuel => PFuel | PPanic => PPanic | PUnknown => PUnknown
+            end
+          | _, _ => PPanic
+          end
+    end.
+
+Fixpoint addresses (fuel : nat) (st : pst) (expecting : bool) : pres pst :=
+  match fuel with
+  | O => PFuel
+  | S f =>
+    let tkn := renv (pval st) in
+    if beq tkn IMPORT && is_new_line st then
+      match do_import st with
+      | POk st' => addresses f st' expecting
+      | e => e
+      end
+    else if beq tkn LBRACE then (if expecting then PErr ESyntax else POk st)
+    else
+      let '(st1, exp1) :=
+        match rev tkn with
+        | [] => (st, expecting)
+        | last :: pre => if last =? COMMA then (add_key st (rev pre), true) else (add_key st tkn, false)
+        end in
+      let '(has, st2) := p_next st1 in
+      if exp1 && negb has then PErr ESyntax
+      else if negb has then POk (set_eof st2)
+      else if negb exp1 && is_new_line st2 then POk st2
+      else addresses f st2 exp1
   end.
 
 Fixpoint directive_loop (fuel : nat) (st : pst) (dir : bytes) (nesting : Z) : pres pst :=
@@ -199,27 +317,32 @@ Fixpoint directive_loop (fuel : nat) (st : pst) (dir : bytes) (nesting : Z) : pr
   | O => PFuel
   | S f =>
     let '(has, st1) := p_next st in
-    if negb has then (if (0 <? nesting)%Z then PErr else POk st1)
+    if negb has then (if (0 <? nesting)%Z then PErr ESyntax else POk st1)
     else
       let v := pval st1 in
-      let cont (st' : pst) (n' : Z) :=
-        match replace_env env (pval st') with
-        | None => PFuel
-        | Some txt => let st'' := set_tok_text st' (p_cursor st') txt in
-                      directive_loop f (push_cur st'' dir) dir n'
+      let cont (n' : Z) :=
+        match tok_at st1 (p_cursor st1) with
+        | None => PPanic
+        | Some t =>
+          let t' := retext t (renv (t_text t)) in
+          directive_loop f (push_tok (set_tok_text st1 (p_cursor st1) (t_text t')) dir t') dir n'
         end in
-      if beq v LBRACE then cont st1 (nesting + 1)%Z
+      if beq v LBRACE then cont (nesting + 1)%Z
       else if is_new_line st1 && (nesting =? 0)%Z then POk (set_cursor st1 (p_cursor st1 - 1))
-      else if beq v RBRACE && (0 <? nesting)%Z then cont st1 (nesting - 1)%Z
-      else if beq v RBRACE && (nesting =? 0)%Z then PErr
-      else if beq v IMPORT && is_new_line st1 then PUnsupported
-      else cont st1 nesting
+      else if beq v RBRACE && (0 <? nesting)%Z then cont (nesting - 1)%Z
+      else if beq v RBRACE && (nesting =? 0)%Z then PErr ESyntax
+      else if beq v IMPORT && is_new_line st1 then
+        match do_import st1 with
+        | POk st2 => directive_loop f (set_cursor st2 (p_cursor st2 - 1)) dir nesting
+        | e => e
+        end
+      else cont nesting
   end.
 
 Definition directive (fuel : nat) (st : pst) : pres pst :=
-  match replace_env env (pval st) with
-  | None => PFuel
-  | Some dir => directive_loop fuel (push_cur st dir) dir 0%Z
+  match tok_at st (p_cursor st) with
+  | None => PPanic
+  | Some t => directive_loop fuel (push_tok st (renv (t_text t)) t) (renv (t_text t)) 0%Z
   end.
 
 Fixpoint directives (fuel : nat) (st : pst) : pres pst :=
@@ -229,36 +352,73 @@ Fixpoint directives (fuel : nat) (st : pst) : pres pst :=
     let '(has, st1) := p_next st in
     if negb has then POk st1
     else if beq (pval st1) RBRACE then POk st1
-    else if beq (pval st1) IMPORT then PUnsupported
+    else if beq (pval st1) IMPORT then
+      match do_import st1 with
+      | POk st2 => directives f (set_cursor st2 (p_cursor st2 - 1))
+      | e => e
+      end
     else match directive f st1 with
          | POk st2 => directives f st2
          | e => e
          end
   end.
 
-Definition is_snippet (keys : list bytes) : bool :=
-  match keys with
-  | [k] => has_prefix k [40] && has_suffix k [41]
-  | _ => false
-  end.
-
 Definition block_contents (fuel : nat) (st : pst) : pres pst :=
   let opened := beq (pval st) LBRACE in
   let st0 := if opened then st else set_cursor st (p_cursor st - 1) in
   match directives fuel st0 with
-  | POk st1 => if opened then (if beq (pval st1) RBRACE then POk st1 else PErr) else POk st1
+  | POk st1 => if opened then (if beq (pval st1) RBRACE then POk st1 else PErr ESyntax) else POk st1
   | e => e
   end.
 
+(* snippetTokens after the open brace check; [count] starts at 1 *)
+Fixpoint snippet_tokens (fuel : nat) (st : pst) (count : Z) (acc : list token) : pres (pst * list token) :=
+  match fuel with
+  | O => PFuel
+  | S f =>
+    let '(has, st1) := p_next st in
+    if negb has then PErr ESyntax
+    else
+      let v := pval st1 in
+      if beq v RBRACE && (count =? 1)%Z then POk (st1, acc)
+      else
+        let c1 := if beq v RBRACE then (count - 1)%Z else count in
+        let c2 := if beq v LBRACE then (c1 + 1)%Z else c1 in
+        match tok_at st1 (p_cursor st1) with
+        | None => PPanic
+        | Some t => snippet_tokens f st1 c2 (acc ++ [t])
+        end
+  end.
+
+Definition define_snippet (fuel : nat) (st : pst) : pres pst :=
+  match p_keys st with
+  | [k] =>
+    let name := snippet_name k in
+    match lookup_s (p_snips st) name with
+    | Some _ => PErr ESyntax
+    | None =>
+      if negb (beq (pval st) LBRACE) then PErr ESyntax
+      else match snippet_tokens fuel st 1%Z [] with
+           | POk (st1, body) =>
+               POk {| p_tokens := p_tokens st1; p_cursor := p_cursor st1; p_keys := [];
+                      p_btoks := p_btoks st1; p_eof := p_eof st1;
+                      p_snips := p_snips st1 ++ [(name, body)]; p_imports := p_imports st1 |}
+           | PErr e => PErr e | PFuel => PFuel | PPanic => PPanic | PUnknown => PUnknown
+           end
+    end
+  | _ => PPanic
+  end.
+
 Definition parse_one (fuel : nat) (st : pst) : pres pst :=
-  let st0 := {| p_tokens := p_tokens st; p_cursor := p_cursor st; p_keys := []; p_btoks := []; p_eof := p_eof st |} in
+  let st0 := {| p_tokens := p_tokens st; p_cursor := p_cursor st; p_keys := []; p_btoks := [];
+                p_eof := p_eof st; p_snips := p_snips st; p_imports := p_imports st |} in
   match p_tokens st0 with
   | [] => POk st0
   | _ =>
     match addresses fuel st0 false with
     | POk st1 =>
         if p_eof st1 then POk st1
-        else if is_snippet (p_keys st1) then PUnsupported
+        else if is_snippet (p_keys st1) then define_snippet fuel st1
         else block_contents fuel st1
     | e => e
     end
@@ -274,20 +434,71 @@ Fixpoint parse_all (fuel : nat) (st : pst) (acc : list block) : pres (list block
     if negb has then POk (rev acc)
     else match parse_one fuel st1 with
          | POk st2 => parse_all f st2 (match p_keys st2 with [] => acc | _ => (p_keys st2, p_btoks st2) :: acc end)
-         | PErr => PErr | PFuel => PFuel | PUnsupported => PUnsupported
+         | PErr e => PErr e | PFuel => PFuel | PPanic => PPanic | PUnknown => PUnknown
          end
   end.
+
+Definition init_st (toks : list token) : pst :=
+  {| p_tokens := toks; p_cursor := (-1)%Z; p_keys := []; p_btoks := []; p_eof := false;
+     p_snips := []; p_imports := 0 |}.
+Definition parse_tokens (fuel : nat) (toks : list token) : pres (list block) :=
+  parse_all fuel (init_st toks) [].
 End Parser.
 
-Definition parse (env : list (bytes * bytes)) (inp : list N) : pres (list block) :=
+Definition retag (f : N) (ts : list token) : list token :=
+  map (fun t => {| t_file := f; t_line := t_line t; t_text := t_text t |}) ts.
+Definition lex_files (files : list (N * option (list N))) : list (N * option (list token)) :=
+  (* an empty file cannot be imported (lexer.load returns EOF: "Could not read tokens") *)
+  map (fun e => (fst e, match snd e with Some [] => None | Some txt => Some (retag (fst e) (lex txt)) | None => None end)) files.
+Fixpoint total_len (files : list (N * option (list token))) : nat :=
+  match files with
+  | [] => O
+  | (_, Some ts) :: r => (length ts + total_len r)%nat
+  | (_, None) :: r => total_len r
+  end.
+
+(* fuel used by the executable reference: enough for [maxi] imports each splicing every file *)
+Definition run_fuel (maxi : N) (n0 m : nat) : nat := (2 * (n0 + (N.to_nat maxi + 1) * (m + n0)) + 8)%nat.
+
+Definition parse_world (env : list (bytes * bytes)) (maxi : N) (globs : list ((N * bytes) * list N))
+           (files : list (N * option (list N))) (inp : list N) : pres (list block) :=
   let toks := lex inp in
-  parse_all env (2 * length toks + 4) {| p_tokens := toks; p_cursor := (-1)%Z; p_keys := []; p_btoks := []; p_eof := false |} [].
+  let fl := lex_files files in
+  parse_tokens env maxi globs fl (run_fuel maxi (length toks) (total_len fl)) toks.
+
+(* the import-free entry point (no files: every import of a file fails) *)
+Definition parse (env : list (bytes * bytes)) (inp : list N) : pres (list block) :=
+  parse_world env 10000 [] [] inp.
+
+(* ---------- Dispenser operations used by directive setup code ---------- *)
+(* over a bare token list and cursor (NewDispenserTokens of one directive group) *)
+Definition d_tok (ts : list token) (c : Z) : option token :=
+  if (c <? 0)%Z then None else nth_error ts (Z.to_nat c).
+Definition d_next_on_same_line (ts : list token) (c : Z) : bool * Z :=
+  if (c <? 0)%Z then (true, (c + 1)%Z)
+  else if (c >=? Z.of_nat (length ts) - 1)%Z then (false, c)
+  else match d_tok ts c, d_tok ts (c + 1) with
+       | Some a, Some b => if next_on_new_line a b then (false, c) else (true, (c + 1)%Z)
+       | _, _ => (false, c)
+       end.
+Definition d_next_arg (ts : list token) (c : Z) : bool * Z :=
+  if (c <? 0)%Z then (true, (c + 1)%Z)
+  else if (c >=? Z.of_nat (length ts))%Z then (false, c)
+  else match d_tok ts c, d_tok ts (c + 1) with
+       | Some a, Some b =>
+           if (t_file a =? t_file b) && (t_line a + count_nl (t_text a) =? t_line b)%Z
+           then (true, (c + 1)%Z) else (false, c)
+       | _, _ => (false, c)
+       end.
 
 (* ---------- observable projection and cases ---------- *)
-(* blocks projected to texts; directive groups sorted by the harness on both sides (Go map) *)
-Definition oblock := (list bytes * list (bytes * list bytes))%type.
+(* directive groups are sorted by the harness on both sides (Go map) *)
+Definition otok := (N * Z * bytes)%type.                      (* file, line, text *)
+Definition oblock := (list bytes * list (bytes * list otok))%type.
+Definition otok_of (t : token) : otok := (t_file t, t_line t, t_text t).
+Definition tok_of (o : otok) : token := {| t_file := fst (fst o); t_line := snd (fst o); t_text := snd o |}.
 Definition project (b : block) : oblock :=
-  (fst b, map (fun g => (fst g, map t_text (snd g))) (snd b)).
+  (fst b, map (fun g => (fst g, map otok_of (snd g))) (snd b)).
 
 Fixpoint bytes_leb (a b : bytes) : bool :=
   match a, b with
@@ -295,45 +506,95 @@ Fixpoint bytes_leb (a b : bytes) : bool :=
   | _ :: _, [] => false
   | x :: a', y :: b' => if x <? y then true else if y <? x then false else bytes_leb a' b'
   end.
-Fixpoint insert_group (g : bytes * list bytes) (l : list (bytes * list bytes)) :=
+Fixpoint insert_group {T} (g : bytes * T) (l : list (bytes * T)) :=
   match l with
   | [] => [g]
   | h :: r => if bytes_leb (fst g) (fst h) then g :: l else h :: insert_group g r
   end.
-Definition sort_groups (l : list (bytes * list bytes)) := fold_right insert_group [] l.
+Definition sort_groups {T} (l : list (bytes * T)) := fold_right insert_group [] l.
 Definition canon (b : block) : oblock := (fst (project b), sort_groups (snd (project b))).
 
+Definition otok_eqb (a b : otok) : bool :=
+  (fst (fst a) =? fst (fst b)) && (snd (fst a) =? snd (fst b))%Z && beq (snd a) (snd b).
 Definition oblock_eqb (a b : oblock) : bool :=
   list_beq beq (fst a) (fst b) &&
-  list_beq (fun g h => beq (fst g) (fst h) && list_beq beq (snd g) (snd h)) (snd a) (snd b).
+  list_beq (fun g h => beq (fst g) (fst h) && list_beq otok_eqb (snd g) (snd h)) (snd a) (snd b).
+
+(* what the generating AST says: per block the keys and, per directive (sorted by name), the token
+   texts with a flag "starts on a new line relative to the previous token of the group" *)
+Definition eblock := (list bytes * list (bytes * list (bytes * bool)))%type.
+
+(* line structure of an observed group against the expected flags: [next_on_new_line] (the test
+   of NextLine / nextOnSameLine / NextBlock) and the same-line test of NextArg must both say
+   what was written *)
+Fixpoint struct_ok (prev : option token) (obs : list otok) (ex : list (bytes * bool)) : bool :=
+  match obs, ex with
+  | [], [] => true
+  | o :: obs', (txt, nl) :: ex' =>
+      let t := tok_of o in
+      beq (t_text t) txt &&
+      match prev with
+      | None => true
+      | Some p =>
+          Bool.eqb (next_on_new_line p t) nl &&
+          Bool.eqb ((t_file p =? t_file t) && (t_line p + count_nl (t_text p) =? t_line t)%Z) (negb nl)
+      end && struct_ok (Some t) obs' ex'
+  | _, _ => false
+  end.
+Fixpoint texts_ok (obs : list otok) (ex : list (bytes * bool)) : bool :=
+  match obs, ex with
+  | [], [] => true
+  | o :: obs', (txt, _) :: ex' => beq (snd o) txt && texts_ok obs' ex'
+  | _, _ => false
+  end.
+Fixpoint all2 {A B} (f : A -> B -> bool) (a : list A) (b : list B) : bool :=
+  match a, b with
+  | [], [] => true
+  | x :: a', y :: b' => f x y && all2 f a' b'
+  | _, _ => false
+  end.
+Definition eblock_ok (with_struct : bool) (o : oblock) (e : eblock) : bool :=
+  list_beq beq (fst o) (fst e) &&
+  all2 (fun g h => beq (fst g) (fst h) &&
+                       (if with_struct then struct_ok None (snd g) (snd h) else texts_ok (snd g) (snd h)))
+           (snd o) (snd e).
 
 Inductive obs :=
 | OBlocks (bs : list oblock)      (* groups already sorted by directive name *)
-| OError (names_file_line : bool)
+| OError (names_file_line : bool) (class : N)   (* 0 syntax, 1 too many imports, 2 import, 3 argument *)
 | OPanic
 | OTimeout.
+
+Definition perr_class (e : perr) : N :=
+  match e with ESyntax => 0 | ECycle => 1 | EImport => 2 | EArg => 3 end.
+
+(* the environment the harness sets for every parser case (c10Env in harness/c10.go) *)
+Definition std_env : list (bytes * bytes) :=
+  [(hex "565f41"%string, hex "616c706861"%string); (hex "565f4252"%string, hex "7b"%string); (hex "565f45"%string, hex ""%string); (hex "565f46"%string, hex "696e63312e636f6e66"%string); (hex "565f494d50"%string, hex "696d706f7274"%string); (hex "565f4c4f4f50"%string, hex "787b24565f4c4f4f507d"%string); (hex "565f4e4c"%string, hex "6c310a6c32"%string); (hex "565f504354"%string, hex "7b25565f41257d"%string); (hex "565f524543"%string, hex "617b24565f417d62"%string); (hex "565f5350"%string, hex "74776f20776f726473"%string)].
 
 Inductive case :=
 (* lexer through NewDispenser: observed (line, text) of every token *)
 | CLex (inp : list N) (obs_toks : list (Z * list N))
-(* parser: [inp] = the inline text (runes); the implementation parsed [kind]: 0 = the same text,
-   1 = the same configuration split into imported files, 2 = with snippets;
+(* parser: the implementation parsed [main] with the files [files] next to it; [globs] is what
+   filepath.Glob returned for every (importing file, pattern) the harness could anticipate;
+   [cap] = the import bound used when evaluating the model (the implementation's is 10000);
    [expected] = the generating AST when the text was rendered from one *)
-| CParse (kind : N) (env : list (bytes * bytes)) (inp : list N) (o : obs)
-         (expected : option (list oblock)).
+| CParse (kind : N) (env : list (bytes * bytes)) (cap : N) (main : list N)
+         (files : list (N * option (list N))) (globs : list ((N * bytes) * list N))
+         (o : obs) (expected : option (list eblock)).
 
 Definition judge (c : case) : N :=
   match c with
   | CLex inp ot =>
       let m := map (fun t => (t_line t, t_text t)) (lex inp) in
       verdict (list_beq (fun a b => (fst a =? fst b)%Z && beq (snd a) (snd b)) m ot) true
-  | CParse kind env inp o expected =>
-      let m := parse env inp in
+  | CParse kind env cap main files globs o expected =>
+      let m := parse_world env cap globs files main in
       let agree :=
         match m, o with
         | POk bl, OBlocks ob => list_beq oblock_eqb (map canon bl) ob
-        | PErr, OError _ => true
-        | PUnsupported, _ => true
+        | PErr e, OError _ cls => perr_class e =? cls
+        | PUnknown, _ => true
         | PFuel, OTimeout => true
         | _, _ => false
         end in
@@ -341,8 +602,11 @@ Definition judge (c : case) : N :=
         match o with
         | OPanic => false
         | OTimeout => false
-        | OError nfl => nfl && match expected with Some _ => false | None => true end
-        | OBlocks ob => match expected with Some ex => list_beq oblock_eqb ex ob | None => true end
+        | OError nfl _ => nfl && match expected with Some _ => false | None => true end
+        | OBlocks ob => match expected with
+                        | Some ex => all2 (eblock_ok true) ob ex
+                        | None => true
+                        end
         end in
       verdict agree spec
   end.
